@@ -17,7 +17,19 @@
     [pnext s l] is the (deterministic) effect of label [l] in state [s], [None]
     when [l] is not enabled; the transition relation is [pnext s l = Some s'].
     The state also records, as ghost history, the generations written (in
-    order), so that the properties can be stated on states. *)
+    order), so that the properties can be stated on states.
+
+    [find_sender] picks the first goroutine blocked in a send of the value; the
+    invariant of ProtocolProofs.v shows that there is never more than one, so
+    every run of the real system is a run of this deterministic-choice LTS.
+
+    Relation to the verifTrace events of the real program (each logged AFTER
+    the action, under a mutex): ran/spawn/link/linked/written/exit are LRun/
+    LSpawn/LLinkOne/LLinks/LWrite/LExit; a rendezvous is identified by the
+    RECEIVER's event (recv:<g> t = LRecv g t, main-recv t = LMainRecv t), whose
+    sender has logged everything it did before the send; purged:<g> t =
+    LPurge g t; the sender-side markers (sent, putback, main-putback, start) are
+    ignored by the acceptor. *)
 From Coq Require Import List Arith Bool Lia.
 From OW Require Import Sim.SimAux Sim.ImplSim.
 Import ListNotations.
@@ -50,7 +62,8 @@ Record pstate := {
 Inductive plabel :=
 | LRun (i : nat)          (* main: runGeneration(i) *)
 | LSpawn (i : nat)        (* main: go writer(i) *)
-| LLinks (i : nat)        (* main: links of iteration i applied *)
+| LLinkOne (i : nat)      (* main: one link of iteration i applied (one turn of the PROCESS LINKS loop) *)
+| LLinks (i : nat)        (* main: the PROCESS LINKS loop of iteration i left *)
 | LRecv (g t : nat)       (* rendezvous: writer g receives t from whoever is sending t *)
 | LPurge (g t : nat)      (* writer g: PurgeGeneration(t) on every model, then the comparison t == g-1 *)
 | LWrite (g : nat)        (* writer g: writeGeneration(g) *)
@@ -124,6 +137,11 @@ Section Protocol.
                                    p_writers := p_writers s ++ [match i with 0 => WWrite | _ => WRecv end];
                                    p_written := p_written s |}
                       else None
+        | _ => None
+        end
+    | LLinkOne i =>
+        match p_main s with
+        | MLinks j => if i =? j then Some s else None
         | _ => None
         end
     | LLinks i =>
@@ -225,6 +243,7 @@ Section Protocol.
   Definition action_of (l : plabel) : list action :=
     match l with
     | LRun i => [ARun i]
+    | LLinkOne i => [ALinkOne i]
     | LLinks i => [ALinks i]
     | LWrite g => [AWrite g]
     | LPurge _ t => [APurge t]
